@@ -149,3 +149,34 @@ func (p *Prog) SitesT(fn *ssa.Function, m Matcher) []Site {
 	rec(fn, 0, map[*ssa.Function]bool{fn: true})
 	return out
 }
+
+// ThroughHelper resolves a value produced by a call to a transparent helper to the value the helper returns, when the
+// helper has a single return (repeatedly); other values are returned unchanged.
+func ThroughHelper(v ssa.Value) ssa.Value {
+	for d := 0; d < maxInlineDepth; d++ {
+		idx := 0
+		cv := unwrap(v)
+		if e, ok := cv.(*ssa.Extract); ok {
+			idx = e.Index
+			cv = e.Tuple
+		}
+		cl, ok := cv.(*ssa.Call)
+		if !ok {
+			return v
+		}
+		g := TransparentCallee(cl)
+		if g == nil {
+			return v
+		}
+		rs := returnsOf(g)
+		if len(rs) != 1 || idx >= len(rs[0].Results) {
+			return v
+		}
+		r := rs[0].Results[idx]
+		if srcs := resolveLocal(r); len(srcs) == 1 {
+			r = srcs[0]
+		}
+		v = r
+	}
+	return v
+}
